@@ -33,7 +33,9 @@ RULE = ("polar cases = product(ri, nr, nfunc) restricted to the resolution limit
         "must be returned (reported once per (ri, nr); polar / cartesian cases of such a pair are skipped and "
         "counted); cartesian cases = product(dim, mask, ri, nr, nmax) with the same restriction for "
         "npp = int(2 pi nr), plus a dense scan of the output size (dim 2..79 and spot sizes up to 520 / 1030) "
-        "with three modes; variances cases = every (ri, nr, nmax) of the cartesian alphabets: the variances "
+        "with three modes and a dense scan of the radial sampling through the Cartesian driver (every nr = 4..72 quick / "
+        "4..140 thorough at dim 16, ri 0.25, three modes: the driver's own azimuthal sampling int(2 pi nr) and "
+        "polar-to-Cartesian geometry); variances cases = every (ri, nr, nmax) of the cartesian alphabets: the variances "
         "returned by make_kl (default, stf given by either alias, outer scale given) against the modal "
         "covariances of the native-grid basis; non-trivial = nfunc >= 3 (more than the tip/tilt pair)")
 ASSUMPTIONS = [
